@@ -215,7 +215,7 @@ def enum_specs(draw, prof=None):
     lens, gaps = _fit_layout(lo, hi, n, cuts, gaps)
     n = sum(lens)
     total = hi - lo + 1
-    layout = draw(st.sampled_from(prof.get("layouts", ["free"] * 8 + ["span_pow2", "span_all", "lattice", "pow2"])))
+    layout = draw(st.sampled_from(prof.get("layouts", ["free"] * 8 + ["span_pow2", "span_all", "lattice", "pow2", "arith", "mirrored"])))
     if layout == "span_pow2" and len(lens) >= 2:
         # MAX - MIN exactly on / next to a power of two (bit-set and bitmap style fast paths)
         target = draw(st.sampled_from([7, 8, 9, 15, 16, 17, 31, 32, 33, 63, 64, 65, 127, 128, 129, 255, 256, 257, 65535, 65536]))
@@ -264,6 +264,25 @@ def enum_specs(draw, prof=None):
     if layout == "span_all" and len(lens) >= 2:
         shift = lo - values[0]
         values = [v + shift for v in values]
+    if layout == "arith" and 3 <= n <= 40:
+        # equally spaced isolated values, optionally spanning more than half of the repr ({-100, 0, 100} as i8)
+        wide = (hi - lo) // (n - 1)
+        step = draw(st.sampled_from([2, 3, 5, 10, 50, 100, 1000, 4096] + ([wide, max(2, wide - 1), max(2, wide // 2 + 1)] if wide >= 2 else [])))
+        if step >= 2 and step * (n - 1) <= hi - lo:
+            base = draw(st.sampled_from([lo, hi - step * (n - 1), max(lo, -(step * (n - 1)) // 2), 0 if lo <= 0 and step * (n - 1) <= hi else lo]))
+            cand = [base + step * i for i in range(n)]
+            if cand[0] >= lo and cand[-1] <= hi:
+                values = cand
+    if layout == "mirrored" and 4 <= n <= 40 and lo < 0:
+        # values mirrored around zero without zero itself (-m..-1, 1..m), a few interior values removed
+        m_ = (n + 3) // 2
+        if m_ <= min(-lo, hi):
+            cand = [x for x in range(-m_, m_ + 1) if x != 0]
+            drop = draw(st.lists(st.sampled_from(cand[1:-1]), max_size=2, unique=True)) if len(cand) > 4 else []
+            cand = [x for x in cand if x not in drop]
+            if len(cand) >= 2:
+                values = cand
+                n = len(values)
     if layout in ("lattice", "pow2") and 2 <= n <= 40:
         # regularly spaced discriminants (status codes, bit flags): multiples of a step with some missing / powers of two
         if layout == "lattice":
@@ -272,7 +291,14 @@ def enum_specs(draw, prof=None):
             base = draw(st.sampled_from([0, 0, 1, -step * (ks[-1] // 2), lo]))
             cand = [base + step * k for k in ks]
         else:
-            ks = sorted(draw(st.lists(st.integers(0, 62), min_size=n, max_size=n, unique=True)))
+            if draw(st.booleans()):
+                ks = sorted(draw(st.lists(st.integers(0, 62), min_size=n, max_size=n, unique=True)))
+            else:
+                # contiguous bit numbers with one or two left out (a flag enum with an unused bit)
+                k0 = draw(st.integers(0, max(0, 60 - n)))
+                allk = list(range(k0, k0 + n + 2))
+                drop = draw(st.lists(st.sampled_from(allk[1:-1]), min_size=1, max_size=2, unique=True))
+                ks = [k for k in allk if k not in drop][:n]
             cand = [1 << k for k in ks]
             if draw(st.booleans()):
                 cand = [0] + cand[:-1]
@@ -298,7 +324,10 @@ def enum_specs(draw, prof=None):
         starts = [0]
         for ln in lens[:-1]:
             starts.append(starts[-1] + ln)
-        cut = starts[draw(st.integers(0, len(starts) - 1))] if len(starts) > 1 else draw(st.integers(0, n - 1))
+        if sum(lens) == n and len(starts) > 1:
+            cut = starts[draw(st.integers(0, len(starts) - 1))]
+        else:                       # a structured layout replaced the run structure: rotate at any position
+            cut = draw(st.integers(0, n - 1))
         order = list(range(cut, n)) + list(range(0, cut))
     elif small:
         order = list(draw(st.permutations(list(range(n)))))
